@@ -330,6 +330,16 @@ func runHotRestartCase(c *checkCtx, cs hrCase, can *canary) (res hrResult) {
 	res.swapped = allNew
 	switch cs.Scenario {
 	case "complete", "foreign-epochs", "back-to-back":
+		if cs.Scenario == "foreign-epochs" && smEpoch == epoch+555 {
+			// The manager ran a restart for the injected epoch. It only ever *starts* a restart from its idle state, so the injected
+			// event was the first restart event it saw in that state: either it overtook the real one on the connection (the
+			// library writes a restart event directly when the connection is free and queues it for the send loop otherwise, so
+			// two events issued back to back can swap under contention - a restart has only one event per session, the second
+			// one is the harness's) or it was handled after the announced restart had ended. Both are legitimate new restarts.
+			res.inconcl = fmt.Sprintf("the injected foreign-epoch event started a restart of its own (manager epoch %d, epochs %v): it overtook the real event or came after the announced restart had ended; scenario not judged", smEpoch, epochs)
+			stopTraffic()
+			return
+		}
 		if cs.Scenario == "foreign-epochs" && !allNew {
 			// The foreign restart event travels right behind the real one, but whether it is *handled* while the real restart is
 			// still in progress depends on how long the client's handshake with the new server takes (the manager's checker
